@@ -2,6 +2,7 @@ package main
 
 import (
 	"bufio"
+	"math"
 	"encoding/json"
 	"flag"
 	"fmt"
@@ -97,9 +98,43 @@ func loadReplayMap(path string) []replayMap {
 	return out
 }
 
+// modelEnv extracts the values of contract-level spec constants from a solver model
+// (define-fun |spec:<fn>:<NAME>| ...) as environment variables VERIF_MODEL_<NAME> for the replay tests.
+func modelEnv(model string) []string {
+	var env []string
+	re := regexp.MustCompile(`(?s)\(define-fun \|spec:[^|]*:(\w+)\| \([^)]*\)\)?[^\n]*\n?\s*(\(fp #b[01] #b[01]+ #x[0-9a-f]+\)|\(- \d+\)|\d+)`)
+	for _, m := range re.FindAllStringSubmatch(model, -1) {
+		name, val := m[1], m[2]
+		if strings.HasPrefix(val, "(fp") {
+			var sgn, exp, man string
+			fmt.Sscanf(val, "(fp #b%s #b%s #x%s", &sgn, &exp, &man)
+			man = strings.TrimSuffix(man, ")")
+			e, _ := strconv.ParseUint(exp, 2, 64)
+			mm, _ := strconv.ParseUint(man, 16, 64)
+			bits := e<<52 | mm
+			if sgn == "1" {
+				bits |= 1 << 63
+			}
+			f := math.Float64frombits(bits)
+			val = strconv.FormatFloat(f, 'f', -1, 64)
+		} else if strings.HasPrefix(val, "(- ") {
+			val = "-" + strings.TrimSuffix(strings.TrimPrefix(val, "(- "), ")")
+		}
+		env = append(env, "VERIF_MODEL_"+name+"="+val)
+		if name == "KF" {
+			env = append(env, "VERIF_C19_K="+val)
+		}
+		if name == "D" {
+			env = append(env, "VERIF_C19_D="+val)
+		}
+	}
+	return env
+}
+
 // runReplay runs the replay tests and reports (failed?, output).
-func runReplay(verif, pkg, test string) (bool, string) {
+func runReplay(verif, pkg, test string, env ...string) (bool, string) {
 	cmd := exec.Command(filepath.Join(verif, "scripts", "replay.sh"), pkg, test)
+	cmd.Env = append(os.Environ(), env...)
 	out, err := cmd.CombinedOutput()
 	txt := string(out)
 	if strings.Contains(txt, "no tests to run") {
@@ -155,6 +190,7 @@ func checkProperty(prop, tier, repo, verif string, seed int, t0 time.Time) int {
 	if err != nil {
 		return fail("cannot load /repo with -tags verif: " + err.Error())
 	}
+	eng.tier = tier
 	if h, ok := specialChecks[prop]; ok {
 		return h(eng, prop, tier, seed, t0, evPath)
 	}
@@ -283,8 +319,9 @@ func checkProperty(prop, tier, repo, verif string, seed int, t0 time.Time) int {
 			anyFailed := false
 			for _, rm := range rmap {
 				if rm.re.MatchString(o.Name) {
-					failed, out := runReplay(verif, rm.pkg, rm.test)
-					fmt.Fprintf(&rb, "\n--- replay %s %s: failed=%v\n%s\n", rm.pkg, rm.test, failed, out)
+					env := modelEnv(o.Model)
+					failed, out := runReplay(verif, rm.pkg, rm.test, env...)
+					fmt.Fprintf(&rb, "\n--- replay %s %s (model values: %v): failed=%v\n%s\n", rm.pkg, rm.test, env, failed, out)
 					if failed {
 						anyFailed = true
 					}
